@@ -275,6 +275,30 @@ def chunks_to_index_loop(s, rewrites=None):
     return s
 
 
+def vec_to_index_loop(s, rewrites=None):
+    """D15 (by-value form): `for x in v { BODY }` over a local Vec `v` that is not used afterwards becomes
+        let mut idx_x: usize = 0; while idx_x < v.len() { let x = &v[idx_x]; BODY idx_x += 1; }
+    BODY sees a reference instead of the owned element; it must only use the element by reference (otherwise the
+    assembled unit does not type-check and the run is UNDECIDED). Same no-`continue` condition."""
+    rx = re.compile(r'^([ \t]*)for (\w+) in (\w+) \{', re.M)
+    while True:
+        m = rx.search(s)
+        if not m:
+            return s
+        ind, x, v = m.group(1), m.group(2), m.group(3)
+        i = 'idx_' + x
+        ob = m.end() - 1
+        cb = _match(s, ob, '{', '}')
+        body = s[ob + 1:cb]
+        if re.search(r'\bcontinue\b', body) or re.search(r'\b' + v + r'\b', s[cb:]):
+            raise Undecided('unsupported construct: D15 not applicable to the by-value loop over %s' % v)
+        new = ('%slet mut %s: usize = 0;\n%swhile %s < %s.len() {\n%s    let %s = &%s[%s];%s\n%s    %s += 1;\n%s}'
+               % (ind, i, ind, i, v, ind, x, v, i, body.rstrip(), ind, i, ind))
+        if rewrites is not None:
+            rewrites.append('D15 by-value loop over %s' % v)
+        s = s[:m.start()] + new + s[cb + 1:]
+
+
 def position_to_loop(s, rewrites=None):
     """D17: the expression `E.iter().position(|x| PRED)` over a Vec/VecDeque place E (PRED an expression) becomes the search
     loop it stands for, as a block expression:
